@@ -17,7 +17,7 @@ import (
 // contradicts it.
 func c01NilImplementations(c *core.Check) {
 	p := c.Prog
-	r := c.Rule("R16", "implementations agree with what their callers believe: when some caller dereferences the pointer returned by an interface method without testing it, no implementation of that method in the module returns the nil constant", 1)
+	r := c.Rule("R16", "implementations agree with what their callers believe: when some caller dereferences the pointer returned by an interface method without testing it, no implementation of that method in the module returns the nil constant", 24)
 	type belief struct {
 		iface  *types.Interface
 		name   string
